@@ -94,7 +94,7 @@ def surface_items(ctx):
     pools = surface.Pools(NASTY_INTS, NASTY_FLOATS, NASTY_STRS)
     tame = surface.Pools([0, 1, 2, 3, 5, -1], [0.0, 0.5, 1.0, 2.0, -1.5], ["a", "bc", "", "x y"])
     items = []
-    per = ctx.pick(8, 120)
+    per = ctx.pick(3, 120)
     for o in overloads:
         if o.name.startswith("__") or o.name in ("sleep", "assert"):
             continue
@@ -162,21 +162,24 @@ def run(ctx):
             if k == "panic":
                 sig = core.panic_sig(out.get("panic"))
                 panic_sites[sig] = panic_sites.get(sig, 0) + 1
+                if "capacity overflow" in sig and "size" not in (limits_pool[li] or {}):
+                    continue        # asking for > isize::MAX bytes with no size limit: memory exhaustion, the host's responsibility like an OOM abort
                 ctx.verdicts.violation(f"panic|{it['op'][:70]}|{sig}", solo, {"expr": it["expr"], "expected": "value, error or violation", "observed": out.get("panic")})
                 continue
             if k in ("died", "timeout"):
-                if k == "timeout" and not limits_pool[li]:
-                    continue        # unbounded work without limits is the host's responsibility (C10 covers the limited case)
+                lim = limits_pool[li] or {}
+                if not all(x in lim for x in ("size", "search", "ud_call")):
+                    continue        # running out of memory / time without the corresponding limit is the host's responsibility (C10 covers the limited case)
                 ctx.verdicts.violation(f"{k}|{it['op'][:70]}", solo, {"expr": it["expr"], "expected": "value, error or violation", "observed": out.get("detail")})
     # ---- (b) near misses, (c) generated core programs and corpus mutants, all executed completely
     progs = [(s, "near_miss") for s in NEAR_MISS]
-    for _ in range(ctx.pick(400, 10000)):
+    for _ in range(ctx.pick(150, 10000)):
         g = Gen(rng, effects=True, errors=True, max_depth=rng.choice([3, 4, 5, 6]))
         progs.append((g.program(rng.randint(2, 12)).src(rng), "generated"))
     corpus = c12.load_corpus()
-    for t in corpus[:ctx.pick(200, 10 ** 6)]:
+    for t in corpus[:ctx.pick(100, 10 ** 6)]:
         progs.append((t, "corpus"))
-    for _ in range(ctx.pick(1500, 40000)):
+    for _ in range(ctx.pick(500, 40000)):
         t = rng.choice(corpus)
         for _ in range(rng.randint(1, 2)):
             t = c12.mutate(rng, t)
@@ -199,9 +202,11 @@ def run(ctx):
         if o.get("timeout") or o.get("died") or o.get("harness_error"):
             if o.get("harness_error") or not o.get("confirmed"):
                 ctx.verdicts.inconclusive_case("worker problem", c)
+            elif not all(x in c.get("limits", {}) for x in ("size", "search", "ud_call")):
+                pass                # without the full set of limits resource exhaustion is the host's responsibility
             elif o.get("died"):
                 ctx.verdicts.violation(f"died|{fam}", c, {"expected": "value, error or violation", "observed": {k: o.get(k) for k in ("rc", "stderr")}})
-            elif c.get("limits", {}).get("ud_call") or c.get("limits", {}).get("search"):
+            else:
                 ctx.verdicts.violation(f"timeout_under_limits|{fam}", c, {"expected": "terminates", "observed": "timeout (confirmed)"})
             continue
         comp = o.get("compile", {})
@@ -219,6 +224,10 @@ def run(ctx):
         for where, p in core.find_panics(o):
             sig = core.panic_sig(p)
             panic_sites[sig] = panic_sites.get(sig, 0) + 1
+            if "capacity overflow" in sig and "size" not in c.get("limits", {}):
+                continue
+            if "ran out of scope parents" in sig and re.search(r"\bforward\s+fn\b", c["source"]):
+                sig += "|program_declares_forward_fn"
             ctx.verdicts.violation(f"panic|{fam}|{where.split(':')[0]}|{sig}", c, {"expected": "value, error or violation", "observed": {"where": where, "panic": p}})
         for name, b in (o.get("bindings") or {}).items():
             if b.get("dump") is not None:
@@ -245,7 +254,8 @@ def run(ctx):
            "acceptance_by_family": {k: f"{a}/{n}" for k, (a, n) in fam_acc.items()}, "near_miss_programs": len(NEAR_MISS)}
     return {"coverage": cov, "broken": None if executed > 300 and values > 300 else "too few accepted programs executed",
             "assumptions": ["native stack exhaustion without a configured depth limit is host responsibility (generated recursion is shallow)",
-                            "elements beyond 24 per container are not forced", "a timeout without any configured limit is not counted (C10 covers limits)"]}
+                            "elements beyond 24 per container are not forced", "a timeout without any configured limit is not counted (C10 covers limits)",
+                            "a 'capacity overflow' panic (a request for more than isize::MAX bytes) without a configured size limit is treated like an out-of-memory abort: host responsibility"]}
 
 
 def replay(ctx, rec):
